@@ -174,6 +174,16 @@ def make_exec(ir, opts, tier):
         eo['intmode'] = True
     if opts.get('expect_panic') == '1':
         eo['expect_panic'] = True
+    if 'override' in opts:
+        ov = {}
+        for pair in opts['override'].split(';'):
+            k, v = pair.split(':')
+            ks = [n for n in ir['funcs'] if n == k or n.endswith('.' + k)]
+            vs = [n for n in ir['funcs'] if n.endswith('.' + v)]
+            if len(ks) != 1 or len(vs) != 1:
+                raise RuntimeError('override %s: %d targets, %d stubs' % (pair, len(ks), len(vs)))
+            ov[ks[0]] = vs[0]
+        eo['overrides'] = ov
     ex = core.Exec(ir, eo)
     ex.tier = tier
     return ex
@@ -455,6 +465,10 @@ def main():
                 info['ends'][k] = info['ends'].get(k, 0) + v
             info['reached'] |= set(r['summary']['reached'])
             for x in r['results']:
+                dk = (x['status'], x.get('kind'), x.get('where'), x.get('msg'))
+                if dk in info.setdefault('_seen', set()):
+                    continue
+                info['_seen'].add(dk)
                 if x['status'] == 'violation':
                     if x['kind'] == 'bigw':
                         info['inconclusive'].append(x)
